@@ -509,4 +509,54 @@ static inline std::string show_path(const std::vector<ref::Step>& p) {
   return s;
 }
 
+// All *valid* JSON texts with at most n tokens, generated by grammar (no
+// filtering): leaves and keys are given spellings.  Order: by token count,
+// then construction order (deterministic), so an index identifies a text.
+static inline std::vector<std::string> valid_texts_by_budget(unsigned n, const std::vector<std::string>& leaves,
+                                                             const std::vector<std::string>& keys, size_t cap = 0) {
+  std::vector<std::vector<std::string>> exact(n + 1), seqA(n + 1), seqO(n + 1);
+  for (unsigned b = 1; b <= n; b++) {
+    if (b == 1) exact[1] = leaves;
+    if (b == 2) {
+      exact[2].push_back("[]");
+      exact[2].push_back("{}");
+    }
+    if (b >= 3) {
+      for (auto& s : seqA[b - 2]) exact[b].push_back("[" + s + "]");
+      for (auto& s : seqO[b - 2]) exact[b].push_back("{" + s + "}");
+    }
+    // sequences with exactly b tokens (incl. commas)
+    seqA[b] = exact[b];
+    for (unsigned t1 = 1; t1 + 2 <= b; t1++) {
+      unsigned t2 = b - 1 - t1;
+      if (t2 < 1) continue;
+      for (auto& s : seqA[t1])
+        for (auto& e : exact[t2]) seqA[b].push_back(s + "," + e);
+    }
+    if (b >= 3) {
+      for (auto& k : keys)
+        for (auto& v : exact[b - 2]) seqO[b].push_back(k + ":" + v);
+    }
+    for (unsigned t1 = 3; t1 + 4 <= b; t1++) {
+      unsigned t2 = b - 1 - t1;  // tokens of the last member
+      if (t2 < 3) continue;
+      for (auto& s : seqO[t1])
+        for (auto& k : keys)
+          for (auto& v : exact[t2 - 2]) seqO[b].push_back(s + "," + k + ":" + v);
+    }
+    if (cap) {
+      size_t tot = 0;
+      for (unsigned q = 1; q <= b; q++) tot += exact[q].size();
+      if (tot > cap) {
+        n = b;
+        break;
+      }
+    }
+  }
+  std::vector<std::string> out;
+  for (unsigned b = 1; b <= n; b++)
+    for (auto& s : exact[b]) out.push_back(s);
+  return out;
+}
+
 }  // namespace fam
